@@ -20,7 +20,10 @@
 #include <fcppt/optional/object.hpp>
 #include <fcppt/optional/maybe.hpp>
 
+#include <istream>
 #include <iterator>
+#include <new>
+#include <streambuf>
 #include <map>
 #include <optional>
 #include <sstream>
@@ -560,6 +563,74 @@ int main(int argc, char **argv)
           if (r.has_value()) rest += vj::cps(std::string(r.get_unsafe().begin(), r.get_unsafe().end()));
           else rest += "[]";
           rest += "}";
+          vj::end_call(rest);
+        }
+    vj::close();
+    return 0;
+  }
+  if (mode == "bigread")
+  {
+    // io::read_chars with counts around and beyond 2^31 / 2^32: a virtual stream (xsgetn reports the
+    // characters as delivered and writes only the first and last 4 of each request, so the 4 GiB block
+    // is never touched). Wide numbers are logged as limbs q * 2^20 + r (TLC integers are 32-bit).
+    struct virt final : std::streambuf
+    {
+      unsigned long long pos = 0, avail = 0;
+      static char at(unsigned long long p) { return static_cast<char>((p * 7 + 3) % 251 % 120 + 1); }
+      std::streamsize xsgetn(char *d, std::streamsize n) override
+      {
+        if (n <= 0) return 0;
+        unsigned long long m = static_cast<unsigned long long>(n);
+        if (m > avail - pos) m = avail - pos;
+        for (unsigned long long i = 0; i < m && i < 4; ++i) d[i] = at(pos + i);
+        for (unsigned long long i = m > 4 ? m - 4 : 0; i < m; ++i) d[i] = at(pos + i);
+        pos += m;
+        return static_cast<std::streamsize>(m);
+      }
+      int_type underflow() override { return traits_type::eof(); }
+    };
+    vj::open(argv[2]);
+    unsigned long long const two31 = 1ULL << 31, two32 = 1ULL << 32;
+    unsigned long long const counts[] = {two31 - 1, two31, two31 + 5, two32 - 1, two32, two32 + 5, 3 * two31 + 7};
+    auto limbs = [](vj::J &j, char const *q, char const *r, unsigned long long v) {
+      j.kv(q, static_cast<long long>(v >> 20)).kv(r, static_cast<long long>(v & ((1ULL << 20) - 1)));
+    };
+    for (unsigned long long count : counts)
+      for (int skip = 0; skip <= 3; skip += 3)
+        for (long long slack = -1; slack <= 1; ++slack)
+        {
+          virt sb;
+          sb.avail = static_cast<unsigned long long>(static_cast<long long>(count + static_cast<unsigned>(skip)) + slack);
+          std::istream is(&sb);
+          sb.pos = static_cast<unsigned>(skip);
+          vj::J j;
+          j.kv("e", "read_chars_big").kv("skip", skip);
+          limbs(j, "count_q", "count_r", count);
+          limbs(j, "avail_q", "avail_r", sb.avail);
+          vj::begin_call(j.s);
+          std::string rest;
+          try
+          {
+            auto r = fcppt::io::read_chars(is, static_cast<std::size_t>(count));
+            vj::J k;
+            k.raw("oom", "false").raw("some", r.has_value() ? "true" : "false");
+            unsigned long long const sz = r.has_value() ? r.get_unsafe().size() : 0;
+            limbs(k, "size_q", "size_r", sz);
+            std::string head, tail;
+            if (r.has_value())
+            {
+              auto const &v = r.get_unsafe();
+              for (unsigned long long i = 0; i < sz && i < 4; ++i) head += v[i];
+              for (unsigned long long i = sz > 4 ? sz - 4 : 0; i < sz; ++i) tail += v[i];
+            }
+            k.raw("head", vj::cps(head)).raw("tail", vj::cps(tail));
+            limbs(k, "pos_q", "pos_r", sb.pos);
+            rest = "," + k.s.substr(1) + "}";
+          }
+          catch (std::bad_alloc const &)
+          {
+            rest = ",\"oom\":true}"; // the environment cannot provide the block: nothing to judge
+          }
           vj::end_call(rest);
         }
     vj::close();
